@@ -19,7 +19,8 @@ CLAIM = dict(
           'and latitude weights with the latitude axis; periodic cell bounds are midpoints with the neighbour phase-aligned to the point itself, both ends of the other interval are '
           'aligned to the same reference, one period is used throughout and points are reduced modulo it first; missing values: data (NaN→0) and validity mask go through the same '
           '_mean, both arms divide by the valid fraction, the skipna=False arm yields NaN unless the fraction is ≈ 1; cached weights are built exactly like the weights used; inputs '
-          'are required increasing. Does not decide equality of the area / thickness-weighted integrals, nor the phase alignment for every offset.'),
+          'are required increasing. Does not decide equality of the area / thickness-weighted integrals, nor the phase alignment for every offset.'
+          ' Later additions: C16.4 also bounds the ≈ 1 allowance of the valid-fraction test (rtol, atol ≤ 1e-3).'),
     note='jnp broadcasting, einsum, vectorize/vmap transparency are trusted. Latitude points are assumed to lie in [−π/2, π/2] and every target cell to overlap some source cell (positive row sums).',
     technique='axis-role inference over broadcast terms + structural normalisation idiom + einsum index-role algebra + sign lemma for (a>b)·(f(a)−f(b))',
 )
